@@ -45,6 +45,14 @@ CHECKS = {
             "operations; cover replayed on EventQueue with OrderedQueueList (ascending, descending, by-argument comparators); TraceDQ.tla keeps the "
             "pending events stably sorted by the world's comparator and demands exactly-once as for C05.",
             "TLA+ model checking (TLC) + transition-cover replay + TLC trace validation with comparator-parametric abstract queue"),
+    "C03": (MC, "7/C03", "conc",
+            "ConcCL.tla (threads x micro-steps of callbacklist.h: atomic counter draw, unlocked before.lock(), one step per critical section, the "
+            "traversal's head / counter / test / step) is model-checked by TLC over all interleavings of the scenario sets with the abstract list "
+            "updated at the linearization points. The real CallbackList and EventDispatcher (std::map, std::unordered_map) run every scenario under "
+            "the controlled scheduler (dfs with preemption bound + random); TraceCC.tla decides linearizability by tracking the set of abstract "
+            "configurations consistent with the recorded begin/end history (results, at-most-once removal, final order) and the visit rules of "
+            "concurrent traversals; deadlock (stuck) and unlocked structural accesses have no step in the specification.",
+            "TLA+ model checking (TLC) + systematic schedule exploration of the real code + TLC trace validation (configuration-set linearizability)"),
     "C06": (MC, "7/C06", "conc",
             "ConcQueue.tla (threads x micro-steps of eventqueue.h, ghost event ledger) is model-checked by TLC over all interleavings of the scenario "
             "sets; the real EventQueue runs the producer/consumer scenarios under a controlled scheduler that owns every mutex, atomic and condition "
